@@ -33,13 +33,6 @@ theorem canonical_service_attr_congr (ign : Bool) (top1 top2 svcs1 svcs2 a b : V
 def docWith (top1 top2 svcs1 svcs2 a b : Val.KVs) (n k : String) (v : Val) : Val :=
   .map (top1 ++ ("services", .map (svcs1 ++ (n, .map (a ++ (k, v) :: b)) :: svcs2)) :: top2)
 
-theorem seg_depends_on : seg "depends_on" = "depends_on" := by decide
-theorem seg_networks : seg "networks" = "networks" := by decide
-theorem seg_build : seg "build" = "build" := by decide
-theorem seg_extends : seg "extends" = "extends" := by decide
-theorem seg_ports : seg "ports" = "ports" := by decide
-theorem seg_env_file : seg "env_file" = "env_file" := by decide
-theorem seg_dns : seg "dns" = "dns" := by decide
 
 /-- `depends_on: [names]` ≡ `depends_on: {name: {condition: service_started, required: true}}`, whole documents -/
 theorem canonical_dependsOn_short_eq_long (ign : Bool) (top1 top2 svcs1 svcs2 a b : Val.KVs) (n : String)
